@@ -14,8 +14,16 @@ COLS = ["id", "score", "pay"]
 SCORES = (-1, 0, 1)  # three levels (every tie structure) including zero and a negative score
 
 
+FINE = False  # when set, the three score levels are 7 - 3e-5, 7, 7 + 3e-5: steps far above float64 resolution, yet
+#               inside the relative band (1e-5) of a sloppy "is close" comparison
+
+
+def score_value(s):
+    return 7.0 + 3e-5 * s if FINE else float(s)
+
+
 def rows_of(inputs):
-    return [[(100 * j + p, float(s), f"pay{j}_{p}") for p, s in enumerate(seq)] for j, seq in enumerate(inputs)]
+    return [[(100 * j + p, score_value(s), f"pay{j}_{p}") for p, s in enumerate(seq)] for j, seq in enumerate(inputs)]
 
 
 def is_sorted(scores, desc):
